@@ -88,11 +88,19 @@ def loop_reads_link_before_callback(ctx, R, b, link):
     if not ctx.need(len(cbs) == 1 and len(links) >= 2, R, f"{b.path}: one callback call and two {link}() reads"):
         return
     cs, ct = cbs[0]
-    carg = b.prov_operand(ct["args"][1], cs)
+    # the callback's argument tuple: find the operand that was put into it
+    cvars = []
+    targ = ct["args"][1]
+    if targ.get("k") in ("cp", "mv") and not targ["p"]["p"]:
+        for n in b.reaching_defs(targ["p"]["l"], cs):
+            _, dsite, kind, payload, proj = b._defs[n]
+            if kind == "assign" and payload["k"] == "agg":
+                for o in payload["fields"]:
+                    cvars.append(b.root_var(o, dsite))
     ok = False
     for ls, lt in links:
-        larg = b.prov_operand(lt["args"][0], ls)
-        if b.dominates(ls, cs) and b.can_reach(cs, ls) and expr_mentions(carg, lambda x: x == larg):
+        lv = b.root_var(lt["args"][0], ls)
+        if b.dominates(ls, cs) and b.can_reach(cs, ls) and lv is not None and lv in cvars:
             ok = True
     # and nothing reads the chunk's link after the callback in the same iteration: the callback's successor path back
     # to the loop head contains no link read of the same value other than the dominating one (checked by dominance)
@@ -181,11 +189,9 @@ def r3_reset(ctx, P):
              where=b.where(de[0][0]), site="free only with successor")
     # the freed chunk is the one whose next() was read (not the successor that next() returned)
     darg = b.prov_operand(de[0][1]["args"][0], de[0][0])
-    nargs = [b.prov_operand(t["args"][0], s) for s, t in nx if b.dominates(s, de[0][0])]
-    okd = bool(nargs) and any(darg == na for na in nargs) and not expr_mentions(
-        darg, lambda x: x[0] == "downcast" and expr_mentions(x, lambda y: y[0] == "call" and y[1].split("::")[-1] == "next") and
-        x is darg)
-    okd = okd and not (darg[0] in ("field", "downcast") and strip_ref(darg)[0] == "downcast")
+    dv = b.root_var(de[0][1]["args"][0], de[0][0])
+    nvs = [b.root_var(t["args"][0], s) for s, t in nx if b.dominates(s, de[0][0])]
+    okd = dv is not None and any(dv == nv for nv in nvs)
     ctx.inst(R, b.path, okd, f"the forward walk frees the chunk whose next() was just read ({show(darg)})" if okd else
              f"the forward walk frees {show(darg)}, which is not the chunk whose successor was just established: the "
              "surviving (last) chunk can be freed", where=b.where(de[0][0]), site="frees predecessor not successor")
